@@ -4,6 +4,7 @@
 struct BufCtr : Ctr {
   ares_buf_t                *buf = nullptr;
   bool                       isconst = false;
+  bool                       filled  = false;  // a call that can give the buffer storage has been made
   std::vector<unsigned char> cdata;  // backing store of a const buffer
   int                        phase = 0;
 
@@ -39,6 +40,7 @@ struct BufCtr : Ctr {
   J exec(const J &op) override {
     const std::string &e = op.a[0].s;
     long               a = op.at_int(1), b = op.at_int(2);
+    if (e.rfind("append", 0) == 0) filled = true;
     if (e == "append" || e == "append_str" || e == "append_direct" || e == "begins_with" || e == "consume_until_charset" ||
         e == "consume_charset" || e == "consume_until_seq" || e == "replace" || e == "split") {
       std::vector<unsigned char> x = tobytes(op.at_ints(1));
@@ -196,10 +198,17 @@ struct BufCtr : Ctr {
     const unsigned char *p   = ares_buf_peek(buf, &len);
     s.set("len", J::Int((long)ares_buf_len(buf)));
     s.set("rem", bytes(p, len));
-    const unsigned char *t = ares_buf_tag_fetch(buf, &tlen);
-    s.set("tagged", J::Int(t ? 1 : 0));
-    s.set("tlen", J::Int((long)ares_buf_tag_length(buf)));
-    s.set("tbytes", t ? bytes(t, tlen) : J::Arr());
+    // The tag is read back with ares_buf_tag_fetch.  On a writable buffer that no append call has
+    // touched yet the state dump does not read it (tagged = -1: not observed); the tag reads are
+    // calls of their own there (tag_fetch_bytes, tag_fetch_string, tag_fetch_strdup).
+    if (!isconst && !filled) {
+      s.set("tagged", J::Int(-1)); s.set("tlen", J::Int((long)ares_buf_tag_length(buf))); s.set("tbytes", J::Arr());
+    } else {
+      const unsigned char *t = ares_buf_tag_fetch(buf, &tlen);
+      s.set("tagged", J::Int(t ? 1 : 0));
+      s.set("tlen", J::Int((long)ares_buf_tag_length(buf)));
+      s.set("tbytes", t ? bytes(t, tlen) : J::Arr());
+    }
     s.set("pos", J::Int(isconst ? (long)ares_buf_get_position(buf) : -1));
     return s;
   }
@@ -223,7 +232,7 @@ struct BufCtr : Ctr {
   J randop(Rng &r, long nkeys, long step, long nops) override {
     long   len = (long)ares_buf_len(buf);
     size_t tl  = 0;
-    bool   tagged = ares_buf_tag_fetch(buf, &tl) != nullptr;
+    bool   tagged = (isconst || filled) && ares_buf_tag_fetch(buf, &tl) != nullptr;
     long   target = 8 * nkeys;
     if (step == nops - 1 && r.chance(40)) return op_make(r.chance(50) ? "finish_bin" : "finish_str");
     if (len == 0) phase = 0;
@@ -247,9 +256,11 @@ struct BufCtr : Ctr {
     if (x < 8) return op_make("tag");
     if (x < 14) return op_make("tag_rollback");
     if (x < 19) return op_make("tag_clear");
-    if (x < 23) return op_make("tag_fetch_bytes", r.below((long)tl + 3));
-    if (x < 26) return op_make("tag_fetch_string", r.below((long)tl + 3));
-    if (x < 28) return op_make("tag_fetch_strdup");
+    // (explicit tag reads on a writable buffer without storage are left to the exhaustive scripts)
+    bool canread = isconst || filled;
+    if (x < 23) return canread ? op_make("tag_fetch_bytes", r.below((long)tl + 3)) : op_make("len");
+    if (x < 26) return canread ? op_make("tag_fetch_string", r.below((long)tl + 3)) : op_make("len");
+    if (x < 28) return canread ? op_make("tag_fetch_strdup") : op_make("peek_byte");
     if (x < 36) return op_make("fetch_bytes", r.below(len > 6 ? 7 : len + 2));
     if (x < 39) return op_make("fetch_bytes_dup", r.below(len > 6 ? 7 : len + 2), r.below(2));
     if (x < 42) return op_make("fetch_str_dup", r.below(len > 4 ? 5 : len + 2));
